@@ -3,7 +3,7 @@ import NfcVerif.Lemmas.Retry
 # C16 - Tag commands retry transient errors and fail only as TagCommandError
 
 Statements only; proofs are in `Lemmas/Retry.lean`, the model in `Model/Retry.lean`.
-All theorems about operations are for the repaired code (`Cfg.repaired`: fixes/C16/0001-0004);
+All theorems about operations are for the repaired code (`Cfg.repaired`: fixes/C16/0001-0005);
 the as-found behaviour is kept in the model (`Cfg.asFound`) and shown by the examples at the end.
 -/
 namespace NfcVerif.C16
@@ -40,35 +40,62 @@ theorem transceive_errno (cfg : Cfg) (p : Prim) (c : Cmd) (a : Ans) (w : World) 
   unfold prim
   rcases hk with h | h <;> rw [h] <;> exact key _
 
-/-- **documented outcome** (partial): every operation of the Type 1, Type 2 and Type 3 families
-(generic and vendor classes; any command sequence `l`), for every fault script of any length made
-of timeout / transmission / protocol errors and cut Type 3 answers, ends with a value or a
-TagCommandError.  Not covered: the Type 4 family (ISO-DEP block protocol is C12's model; open
-findings `t4-unknown-commerror-raw`, `t4-presence-check-not-retried`) and scripts with another
-CommunicationError class, for which Type 1/2 raise RuntimeError (`unknown_commerror_counterexample`). -/
+/-- **ISO-DEP exchange is bounded** (coarse model of `IsoDepInitiator.exchange` for one unchained
+command, as found and repaired, any retry budget, any script): the loop terminates (the fuel of the
+model is never used up), logs one invocation and sends at most `n_retry + 2` frames. -/
+theorem isodep_bounded (cfg : Cfg) (p : Prim) (c : Cmd) (a : Ans) (w : World) (hk : p.kind = .t4) :
+    (prim cfg p c a w).1 ≠ .error .outOfFuel
+    ∧ ∃ atts, (prim cfg p c a w).2.log = w.log ++ [⟨c, atts⟩] ∧ atts.length ≤ p.budget + 2 := by
+  unfold prim; rw [hk]; simp only []
+  obtain ⟨h1, _, more, h3, h4⟩ := dep_spec cfg p.budget c a (p.budget + 3) 1 false false [] w
+    (by omega) (by intro h; cases h) (by omega) (by simp)
+  refine ⟨?_, more, by simpa using h3, by simpa using h4⟩
+  intro he
+  rcases h1 _ he with ⟨m, hm⟩ | ⟨_, f, hf⟩
+  · cases hm
+  · cases f <;> cases hf
+
+/-- **ISO-DEP matching reason code**: `n_retry + 1` timeouts (transmission errors) in a row end the
+exchange with TagCommandError TIMEOUT_ERROR (RECEIVE_ERROR); a protocol error is final at once. -/
+theorem isodep_errno (cfg : Cfg) (p : Prim) (c : Cmd) (a : Ans) (w : World) (f : Fault) (e : Int)
+    (hk : p.kind = .t4) (hf : (f = .timeout ∧ e = 0) ∨ (f = .transmission ∧ e = -1))
+    (hs : startsWith f (p.budget + 1) w.script) :
+    (prim cfg p c a w).1 = .error (.tagCmd e) := by
+  unfold prim; rw [hk]; simp only []
+  exact dep_exhausted cfg p.budget c a f e hf (p.budget + 3) 1 false false [] w (by omega) (by omega)
+    (by simpa using hs)
+
+/-- **documented outcome, every fault script** (Type 3 and Type 4 families: generic Type 3, FeliCa
+Standard, FeliCa Lite, Type 4A/B over ISO-DEP with any retry budget): every operation, for any
+command sequence `l` and EVERY fault script of any length - timeouts, transmission and protocol
+errors, unknown CommunicationError classes, lost commands and lost answers, cut Type 3 answers -
+ends with a value or a TagCommandError. -/
+theorem op_outcome_documented (fam op : String) (l : Phases) (v : Val) (nret : Nat) (P : Prog)
+    (script : List Att) (h : prog Cfg.repaired fam op l v nret = some P)
+    (hf : fam = "t3" ∨ fam = "t3std" ∨ fam = "lite" ∨ fam = "t4") :
+    Documented (run Cfg.repaired P 0 (start script)).1 :=
+  run_documented Robust True (fun _ _ h => h) P 0 (start script)
+    (prog_clean_robust fam op l v nret P h hf) (Or.inl trivial)
+
+/-- **documented outcome, all families** (partial): every operation of every modelled family
+(Type 1, 2, 3, 4, generic and vendor classes) ends with a value or a TagCommandError for every
+fault script made of timeout / transmission / protocol errors and cut answers.  What remains
+excluded (only relevant for the Type 1 and Type 2 families, see `op_outcome_documented`): scripts in
+which `exchange` raises another CommunicationError class three times in a row; there Type 1/2
+raise RuntimeError (`unknown_commerror_counterexample`, open finding pinned by the test-suite). -/
 theorem op_outcome_documented_partial (fam op : String) (l : Phases) (v : Val) (nret : Nat) (P : Prog)
-    (script : List Att) (h : prog Cfg.repaired fam op l v nret = some P) (h4 : fam ≠ "t4")
+    (script : List Att) (h : prog Cfg.repaired fam op l v nret = some P)
     (hb : Benign (start script)) :
     Documented (run Cfg.repaired P 0 (start script)).1 :=
-  run_documented LoopKind (fun _ h => h) False (fun h => h.elim) P 0 (start script)
-    (prog_clean fam op l v nret P h h4) (Or.inr hb)
-
-/-- **documented outcome, Type 3, full**: every operation of the Type 3 family (generic,
-FeliCa Standard, FeliCa Lite) for EVERY fault script (including unknown CommunicationError
-classes and cut answers). -/
-theorem t3_outcome_documented (fam op : String) (l : Phases) (v : Val) (nret : Nat) (P : Prog)
-    (script : List Att) (h : prog Cfg.repaired fam op l v nret = some P)
-    (hf : fam = "t3" ∨ fam = "t3std" ∨ fam = "lite") :
-    Documented (run Cfg.repaired P 0 (start script)).1 :=
-  run_documented (fun k => k = .t3) (fun _ h => Or.inr h) True (fun _ _ h => h) P 0 (start script)
-    (prog_clean_t3 fam op l v nret P h hf) (Or.inl trivial)
+  run_documented (fun _ => True) False (fun h => h.elim) P 0 (start script)
+    (prog_clean_all fam op l v nret P h) (Or.inr hb)
 
 /-- Type 3 `format` (the probing loops take their decisions from errors): for every tag, with and
 without wipe, for every fault script. -/
 theorem t3_format_documented (t : T3Tag) (wipe : Bool) (script : List Att) :
     Documented (run Cfg.repaired (t3Format Cfg.repaired t wipe) 0 (start script)).1 :=
-  run_documented (fun k => k = .t3) (fun _ h => Or.inr h) True (fun _ _ h => h) _ 0 (start script)
-    (t3Format_clean (fun k => k = .t3) rfl Cfg.repaired t wipe) (Or.inl trivial)
+  run_documented Robust True (fun _ _ h => h) _ 0 (start script)
+    (t3Format_clean Robust (Or.inl rfl) Cfg.repaired t wipe) (Or.inl trivial)
 
 /-- **an answered command is never repeated** in any operation of the Type 1/2/3 families: in the
 exchange log of every run every primitive call consists of unanswered attempts followed by at most
@@ -92,10 +119,11 @@ theorem unknown_commerror_counterexample :
     (prog Cfg.repaired "t2" "present" [[rd0]] .true_ 0).map (fun P => (run Cfg.repaired P 0 (start [bl, bl, bl])).1)
       = some (.exc .runtime) := by decide +kernel
 
-/-- open finding `t4-unknown-commerror-raw`: a single BrokenLinkError leaves a Type 4 operation raw. -/
-theorem isodep_commerror_counterexample :
-    (prog Cfg.repaired "t4" "write" [[⟨⟨"up0", true⟩, .ok⟩]] .unit 5).map (fun P => (run Cfg.repaired P 0 (start [bl])).1)
-      = some (.exc .brokenLink) := by decide +kernel
+/-- open finding `t4-presence-check-not-retried` (pinned by the test-suite): one timeout on the
+R(NAK) presence check of a Type 4 tag gives False. -/
+theorem presence_check_not_retried :
+    (prog Cfg.repaired "t4" "present" [[⟨⟨"nak", false⟩, .ok⟩]] .true_ 5).map
+      (fun P => (run Cfg.repaired P 0 (start [.flt .timeout false])).1) = some (.ok .false_) := by decide +kernel
 
 /-- a write whose answer is lost is executed again by the retry (inherent) -/
 theorem lost_answer_write_twice :
@@ -103,7 +131,7 @@ theorem lost_answer_write_twice :
       (fun P => (run Cfg.repaired P 0 (start [.flt .timeout true])).2.applied.map (·.tok)) = some ["w4", "w4"] := by
   decide +kernel
 
-/-! as found (before fixes/C16): F17, F31 (Type 3), F32, sector select assert -/
+/-! as found (before fixes/C16): F17, F31 (Type 3), F32, sector select assert, ISO-DEP unknown CommunicationError -/
 example : (prog Cfg.asFound "t3" "write" [[rd0], [wr4]] .unit 0).map
     (fun P => (run Cfg.asFound P 0 (start [.flt .timeout false, .flt .timeout false, .flt .timeout false])).1)
     = some (.exc .type_) := by decide +kernel
@@ -113,7 +141,11 @@ example : (prog Cfg.asFound "t3" "ndef" [[], [rd0]] .ndef 0).map (fun P => (run 
     = some (.exc .index) := by decide +kernel
 example : (prog Cfg.asFound "t2" "write" [[⟨⟨"s2", false⟩, .mute⟩, wr4]] .unit 0).map
     (fun P => (run Cfg.asFound P 0 (start [.flt .transmission false])).1) = some (.exc .assertion) := by decide +kernel
+example : (prog Cfg.asFound "t4" "write" [[⟨⟨"up0", true⟩, .ok⟩]] .unit 5).map (fun P => (run Cfg.asFound P 0 (start [bl])).1)
+    = some (.exc .brokenLink) := by decide +kernel
 /-- repaired: the same scripts end in TagCommandError -/
+example : (prog Cfg.repaired "t4" "write" [[⟨⟨"up0", true⟩, .ok⟩]] .unit 5).map (fun P => (run Cfg.repaired P 0 (start [bl])).1)
+    = some (.exc (.tagCmd (-1))) := by decide +kernel
 example : (prog Cfg.repaired "t3" "write" [[rd0], [wr4]] .unit 0).map
     (fun P => (run Cfg.repaired P 0 (start [.flt .timeout false, .flt .timeout false, .flt .timeout false])).1)
     = some (.exc (.tagCmd 0)) := by decide +kernel
@@ -121,6 +153,12 @@ example : (prog Cfg.repaired "t2" "write" [[⟨⟨"s2", false⟩, .mute⟩, wr4]
     (fun P => (run Cfg.repaired P 0 (start [.flt .transmission false])).1) = some (.exc (.tagCmd (-1))) := by decide +kernel
 
 /-! non-vacuity of the hypotheses -/
+example : startsWith .timeout (5 + 1) (List.replicate 6 (.flt .timeout true)) := by simp [startsWith, List.replicate]
+/-- ISO-DEP: the I-block is lost, R(NAK) is answered with R(ACK), the retransmitted I-block is
+executed once -/
+example : (prog Cfg.repaired "t4" "write" [[⟨⟨"up0", true⟩, .ok⟩]] .unit 5).map
+    (fun P => let r := run Cfg.repaired P 0 (start [.flt .timeout false]); (r.1, r.2.applied.map (·.tok)))
+    = some (.ok .unit, ["up0"]) := by decide +kernel
 example : LoopKind t12.kind ∧ 0 < t12.budget := ⟨Or.inl rfl, by decide⟩
 example : startsWith .transmission 3 [.flt .transmission true, .flt .transmission false, .flt .transmission true, .ans] := by
   simp [startsWith]
